@@ -35,7 +35,7 @@ def explore(ctx, for_c16=False):
                     ctx.violation(f"[{v}] chain {describe(case)}: {b}", {"case": case, "interpreter": v})
                 if o.get("f5"):
                     ctx.known("F5", f"[{v}] chain {describe(case)}: frames {o['f5']} inherit the running root as origin")
-            for t in o["traces"]:
+            for t in o["traces"] + (o.get("c16_traces", []) if for_c16 else []):
                 all_traces.append(t)
                 owners.append((v, o["idx"]))
     # pattern T: every recorded extraction is a behaviour of ExtractIter
